@@ -39,4 +39,68 @@ CLAIMS.update({
        "Does not decide data-dependent counts.",
   note="Trusted: choice(replace=False) distinct rows; arange identity map."),
 })
+CLAIMS.update({
+ "C01": dict(ref="DESIGN.md 4.1", technique=T + "; field def-use over the Cython kernel (fail-closed desugarer), abstract-cell evaluation of the slotting if-tree, loop-nest lifting to index-notation terms compared in exact rational normal form",
+  text="Decides the structural clauses that make the kernel the closed-form Gaussian marginal: the jitter fold W = ivar/(1+s^2 ivar) is what every term of the marginalisation chain reads (never the raw weights); "
+       "prior means/variances land in the slot of their design-matrix row for every cell of {K, v0, other} x {default, custom K prior}; the K-variance rule equals the distribution's sigma^2 with the max_K^2 cap; "
+       "packed columns map to the Kepler routine's prototype slots with t0 = data reference epoch; all 18 field updates lift to the tensor forms of Ainv, A, b, B, Binv (Woodbury), logdet, chi2 and the result is -(chi2+logdet)/2 with failure sentinels; "
+       "kernel scalar units; design-matrix columns; samples reach the kernel in packed order and internal units. Does not decide round-off, finiteness, LAPACK or Kepler-solver convergence.",
+  note="Trusted: LAPACK and twobody summaries (in/out roles, formulas); Cython semantics of the subset; the .so is rebuilt from the .pyx (Cython absent here)."),
+ "C03": dict(ref="DESIGN.md 4.3", technique=T + "; sibling-prologue effect-set comparison, dominance of the solve over the draw, loop-nest lifting",
+  text="Decides: the three per-sample prologues perform the same guarded effects (Kepler column, jitter fold, K-variance rule and cap) so the draw uses the prior and weights the sample was accepted with; the draw is "
+       "rng.multivariate_normal(a, inv(Ainv)|A, size=n_linear_samples_per) from the method's generator, dominated in the iteration by likelihood_worker(1) with no intervening rewrite; a's right-hand side and Ainv lift to "
+       "M^T W y + mu/Lambda and diag(1/Lambda) + M^T W M solved by dsysv on a copy; output column 5+k = draw column k and the unit-table key order is the design-matrix order; per-batch generators are independent children. "
+       "Does not decide the distributional correctness of numpy's sampler.",
+  note="Trusted: Generator.multivariate_normal draws iid N(mean, cov); dsysv solves the symmetric system."),
+ "C04": dict(ref="DESIGN.md 4.4", technique=T + "; reference-epoch provenance, element/column agreement in rational normal form",
+  text="Decides: one reference epoch flows from data._t_ref_bmjd to the kernel's Kepler t0, the trend matrix dt, the unpack sites (t_ref/poly_trend/n_offsets from the helper) and get_orbit's elements and trend; "
+       "get_orbit maps column X to element X with a = P K/(2 pi) sqrt(1-e^2) and the trend columns in order; ln_unmarginalized_likelihood is sum ln N(model_i(t) | y, err^2 + s_i^2) with the exact ln_normal; jitter reaches the kernel; "
+       "FITS epoch scale agreement. Known finding F18 (offsets never enter the reconstructed model). Does not decide the numerical Bayes identity itself.",
+  note="Trusted: twobody KeplerOrbit + PolynomialRVTrend evaluate the same formula as c_rv_from_elements."),
+ "C05": dict(ref="DESIGN.md 4.5", technique=T + "; kernel field def-use (upward-exposed reads per iteration), hidden-state effect analysis over the call-graph closure",
+  text="Decides: in one iteration of each per-sample loop every read of a field rewritten outside __init__ is preceded by a covering write of the same iteration (no loop-carried helper state); __reduce__/__init__ rebuild the helper from "
+       "(data, prior, trend_M); no reachable function is memoised, writes module state or stores attributes through its parameters; every array reaching the kernel derives from read_batch/pack in the SAME helper's order and units; "
+       "the acceptance uniforms are the first draw on every path; results keep task order; readers return the requested rows in order. Does not decide bitwise float equality across processes.",
+  note="Trusted: LAPACK/Kepler in/out roles; pool.map order."),
+ "C07": dict(ref="DESIGN.md 4.7 + appendix B.2", technique=T + "; unit-tag agreement at every strip site, frozen strip-site inventory",
+  text="Decides that every bare number stripped from a quantity on the numeric path is stripped in the unit it is then paired with: kernel unit table, rv/ivar, prior mean/std conversions (same variable, same name), sigma_K0/max_K/P0, "
+       "default-prior constructor arguments vs with_unit, FixedCompanionMass internals, pack/unpack, reader conversion direction, to_unit/with_unit, multi-survey common unit, unmarginalised likelihood; plus an inventory that fails when a new strip site appears. "
+       "Does not decide the Jacobian constant or twin-run numerical equality.",
+  note="Trusted: astropy unit conversion."),
+ "C08": dict(ref="DESIGN.md 4.8", technique=T + "; lock-step accumulator rule, row-order tags derived from RVData.__init__",
+  text="Decides: the four per-source accumulators are appended once, unconditionally, from the same source, in one common unit, concatenated once and merged unchanged; the merged RVData is time-sorted (derived from C15) so every per-epoch array used with it "
+       "must be re-aligned by the argsort of the same times - today `ids` is not (known finding F6, two keyed sites); offset column j+1 is the boolean indicator of the (j+1)-th unique id; count check dominates; offset priors keep the caller's order. "
+       "Does not decide likelihood values of labelled data.",
+  note="Trusted: np.unique sorted; boolean-mask assignment."),
+ "C09": dict(ref="DESIGN.md 4.9", technique=T + "; log-expanded rational normal forms of densities and inverse CDFs, wiring agreement",
+  text="Decides: UniformLog.logp = switch(a<=x<=b, -log x - log(log b - log a), -inf) under check_parameters and rng_fn = exp(u log(b/a) + log a) (both class variants); FixedCompanionMass sigma/clip/unit handling and its agreement with the kernel's variance rule; "
+       "Kipping Beta parameters; default-prior wiring; JokerPrior.sample draws jointly, pairs draw i with name i, sums pm.logp over ALL drawn variables at their own columns. Known finding F17 (K term evaluated without its parents' row values). "
+       "Does not decide densities of pymc built-ins.",
+  note="Trusted: pymc/pytensor distributions."),
+ "C11": dict(ref="DESIGN.md 4.11", technique=T + "; unit-conversion inventory of the model parameters, normal-form agreement with the sampler's conventions",
+  text="Decides: t_peri = P M0/(2 pi) passed as t_periastron, times = BMJD - t_ref, library M = (t - t_peri) n and v_r = K(cos(omega+f) + e cos omega); trend = M.[v0, offsets, v1..] with the sampler's design matrix; obs sigma = sqrt(err^2+s^2) and the "
+       "ln_likelihood diagnostic uses the same sigma and y; every prior tensor passes through to_unit to day / rad / data unit / data unit per day^i; initial point in the prior's units from the median-period sample. Does not decide equality of densities as numbers.",
+  note="Trusted: pymc Normal logp; exoplanet-derived Kepler solver op."),
+ "C12": dict(ref="DESIGN.md 4.12", technique=T + "; dispatch exhaustiveness, column/field/unit pairing, dominance of refusals over the first mutation, writer/reader agreement",
+  text="Decides: read_batch dispatch is exhaustive and forwards file/columns/units/rng; column i is filled from field columns[i] and converted file->requested; the index reader reads exactly the requested index array in order; random batches never repeat rows; "
+       "on append every refusal (missing metadata, metadata conflict with policy 'error' on every path incl. the recursive call, dtype/column-count mismatch) dominates the first dataset mutation; writer/readers agree on dataset + metadata paths and the FITS epoch scale. "
+       "Does not decide exact round-trip through astropy/h5py/pytables.",
+  note="Trusted: library serialisation; pytables read/read_coordinates row order."),
+ "C15": dict(ref="DESIGN.md 4.15", technique=T + "; lock-step selector rule over RVData.__init__",
+  text="Decides: each row selector (finite mask under clean, time argsort) is applied to t, rv, rv_err on rows (and columns for covariances) before the next selector is computed; the mask is the conjunction of isfinite of all three; "
+       "covariance slicing is rows-then-columns; ivar/cov formulas; default t_ref from the object's own cleaned times; copy forwards every piece of state. Does not decide values.",
+  note="Trusted: numpy indexing semantics."),
+ "C17": dict(ref="DESIGN.md 4.17", technique=T + "; composed-store normal form for wrap_K, rational normal form for the phase time, constructor-call metadata discipline",
+  text="Decides: wrap_K touches only masked rows, K <- |K|, omega <- (omega + pi rad) mod 2 pi rad in radians; get_time_with_phase = t_ref + P(M0+phase)/(2 pi) recomputed on every call (no instance cache beyond get_orbit's template); every re-construction keeps "
+       "table metadata; median_period returns a member row selected over P; pack/unpack name/unit/column agreement. Does not decide numerical invariance of the RV curve.",
+  note="Trusted: astropy Quantity arithmetic; QTable selection keeps meta."),
+ "C18": dict(ref="DESIGN.md 4.18", technique=T + "; guard inventory matched by negation normal form with implication, loop-quantifier and dominance checks",
+  text="Decides for 22 validation conditions + 5 try-guards: the condition is implied by the (path-qualified) test of an `if` whose body always raises, quantified over the full name set with no earlier continue/break, and dominating the accepting effect; "
+       "the Normal-only allow-list is exactly {Normal, FixedCompanionMass}; par_names order; every sampling method validates its data first. Does not decide which exception type pymc raises inside library calls.",
+  note="Trusted: pymc op naming (_print_name)."),
+ "C19": dict(ref="DESIGN.md 4.19", technique=T + "; shift-set domain for the phase-gap array, formula agreement",
+  text="Decides: MAP_sample = samples[argmax(ln_prior + ln_likelihood)]; max_phase_gap differences an array containing the sorted phases followed by a copy (or first element) shifted by exactly one period; phase_coverage = occupied bins / n_bins over linspace(0,1,n_bins+1); "
+       "periods_spanned = baseline[d] / P[d]; per-observation arrays only reach results through order-free reducers. Does not decide numerical values.",
+  note="Trusted: numpy sort/histogram."),
+})
 NOT_APPLICABLE = {}
